@@ -11,7 +11,7 @@ import (
 
 func init() {
 	register("C02", propMeta{
-		Explanation: "Decides the at-most-once half structurally: in Keeper.RecvPacket the receipt write is dominated by the not-found edge of a receipt lookup with the same (source,dest,sequence) key and every accepting path (nil return and the ErrUnauthorized return) passes the receipt write; ValidatePacket succeeds only past 'clean point < packet sequence' where the clean point is read under the packet's own (source,dest) and dominates RecvPacket and AcknowledgePacket; the application callback runs only where the packet's destination equals this chain's name and after keeper success; receipts are deleted only from CleanPacket/RecvCleanPacket and written only from RecvPacket/InitGenesis; every entry that deletes receipts up to N writes the clean point N under the same pair on every success path. NOT decided: liveness (a genuine packet is accepted), counting callbacks over histories.",
+		Explanation: "Decides the at-most-once half structurally: in Keeper.RecvPacket the receipt write is dominated by the not-found edge of a receipt lookup with the same (source,dest,sequence) key and every accepting path (nil return and the ErrUnauthorized return) passes the receipt write; ValidatePacket succeeds only past 'clean point < packet sequence' where the clean point is read under the packet's own (source,dest) and dominates RecvPacket and AcknowledgePacket; the application callback runs only where the packet's destination equals this chain's name and after keeper success; receipts are deleted only from CleanPacket/RecvCleanPacket and written only from RecvPacket/InitGenesis; every entry that deletes receipts up to N writes the clean point N under the same pair on every success path. Also: the receipts a clean deletes are exactly the sequences clean+1..N (the deleting helper walks sequences, not a key range) and the clean point only moves forward (ValidateCleanPacket refuses N <= clean), so a deleted receipt stays covered by the clean guard; in msgServer.RecvPacket the application callback and the acknowledgement write are dominated by the keeper's success; packet genesis records are exported from and restored into their own key class, with source/destination/sequence under the parameter of the same role and unconditionally. NOT decided: liveness (a genuine packet is accepted), counting callbacks over histories.",
 		Assumptions: []string{"cosmos-sdk store branching discards writes of failed messages"},
 		Trusted:     commonTrusted,
 	}, ruleC02)
